@@ -429,6 +429,40 @@ func checkC12(p *core.Program, r *core.Report) {
 	}
 	r.Require("scanIdentifier_returns", nRet, 2)
 
+	// ------------------------------------------------------------------ R2b the input reader
+	if rd := p.Method("excellent", "xinput", "read"); rd == nil {
+		r.Errorf("xinput.read not found")
+	} else {
+		filtered := ""
+		nReads := 0
+		core.EachInstr(rd, false, func(_ *ssa.Function, in ssa.Instruction) {
+			c, ok := in.(*ssa.Call)
+			if !ok {
+				return
+			}
+			if o := core.CalleeObj(&c.Call); o == nil || o.Name() != "ReadRune" {
+				return
+			}
+			nReads++
+			// the rune result must not be compared with anything: every rune read is handed on
+			if c.Referrers() == nil {
+				return
+			}
+			for _, ref := range *c.Referrers() {
+				ex, ok := ref.(*ssa.Extract)
+				if !ok || ex.Index != 0 || ex.Referrers() == nil {
+					continue
+				}
+				for _, u := range *ex.Referrers() {
+					if bo, ok := u.(*ssa.BinOp); ok {
+						filtered = canonShort(bo) + " at " + p.Pos(bo.Pos())
+					}
+				}
+			}
+		})
+		r.Check(filtered == "" && nReads > 0, "R2", "xinput.read/every-rune-handed-on", p.Pos(rd.Pos()), "the rune ReadRune returns is returned whenever there is no error", "the template reader tests the rune it has read ("+filtered+") before handing it on: characters it filters out never reach the scanner, so literal text and string literals lose them (U+FFFD is a valid character and also what ReadRune reports for invalid bytes)")
+	}
+
 	// ------------------------------------------------------------------ R4
 	c11QuotePair(p, r, "R4")
 	c12RawTemplate(p, r)
@@ -610,6 +644,52 @@ func c12RawTemplate(p *core.Program, r *core.Report) {
 		}
 		return false
 	}
+	// what is tested is what is scanned: a comparison of a TRIMMED copy decides nothing about the untrimmed text, so
+	// where a function compares a value derived from the raw template (TrimSpace(t) == ""), the scanner must be fed
+	// that same derived value, not the parameter itself
+	trimmedCompare := func(prm *ssa.Parameter) (string, bool) {
+		derivedCmp := ""
+		var walk func(v ssa.Value, derived bool, seen map[ssa.Value]bool)
+		directScan := false
+		walk = func(v ssa.Value, derived bool, seen map[ssa.Value]bool) {
+			if seen[v] || v.Referrers() == nil {
+				return
+			}
+			seen[v] = true
+			for _, u := range *v.Referrers() {
+				switch x := u.(type) {
+				case *ssa.Phi, *ssa.ChangeType, *ssa.Convert, *ssa.MakeInterface:
+					walk(x.(ssa.Value), derived, seen)
+				case *ssa.BinOp:
+					if (x.Op == token.EQL || x.Op == token.NEQ) && derived {
+						derivedCmp = p.Pos(x.Pos())
+					}
+				case ssa.CallInstruction:
+					o := core.CalleeObj(x.Common())
+					name := ""
+					if o != nil {
+						name = core.ObjName(o)
+					}
+					switch {
+					case name == "strings.TrimSpace":
+						if val, ok := x.(ssa.Value); ok {
+							walk(val, true, seen)
+						}
+					case name == "strings.NewReader":
+						if !derived {
+							directScan = true
+						}
+					default:
+						if !derived && feedsScanner(use{instr: x, what: name, call: x.Common(), arg: argIndex(x.Common(), v)}) {
+							directScan = true
+						}
+					}
+				}
+			}
+		}
+		walk(prm, false, map[ssa.Value]bool{})
+		return derivedCmp, derivedCmp != "" && directScan
+	}
 	n := 0
 	var prms []*ssa.Parameter
 	for prm := range raw {
@@ -630,6 +710,11 @@ func c12RawTemplate(p *core.Program, r *core.Report) {
 			}
 			bad = append(bad, what+" at "+p.Pos(u.instr.Pos()))
 			at = u.instr.Pos()
+		}
+		if at, mismatch := trimmedCompare(prm); mismatch {
+			r.Bad("R5", core.FuncName(prm.Parent())+"/"+prm.Name()+"/tested-as-scanned", at, "a trimmed copy of the raw template is compared (at "+at+") while the untrimmed text is what gets scanned: a template that consists of white space only is treated as empty and its text is dropped instead of passing through unchanged")
+		} else {
+			r.OK("R5", core.FuncName(prm.Parent())+"/"+prm.Name()+"/tested-as-scanned", p.Pos(prm.Pos()), "comparisons and the scanner see the same text")
 		}
 		r.Check(len(bad) == 0, "R5", core.FuncName(prm.Parent())+"/"+prm.Name()+"/only-scanned", p.Pos(at), "the raw template is only trimmed, measured, compared and scanned",
 			fmt.Sprintf("the raw template text of %s flows into %s without passing the scanner: '@@' is not unescaped there and the result differs from what Template produces for the same text", core.FuncName(prm.Parent()), strings.Join(bad, "; ")))
@@ -742,4 +827,13 @@ func c12Gate(cond ssa.Value, taken bool, args map[*ssa.Parameter]ssa.Value, dept
 		return all
 	}
 	return false
+}
+
+func argIndex(com *ssa.CallCommon, v ssa.Value) int {
+	for i, a := range com.Args {
+		if a == v {
+			return i
+		}
+	}
+	return -1
 }
